@@ -12,7 +12,7 @@
 (* call that printed it) applied to the initial tree.  Every successful renamer call appends one    *)
 (* line and changes the tree by exactly that line; every other step changes neither.                *)
 From Tempren Require Import Base.Str Py.PathLib Py.PathLibProofs FS.Model FS.Lemmas FS.PlainPaths.
-From Tempren Require Import Pipe.Pipeline Pipe.DrySim Pipe.DryEqualsReal.
+From Tempren Require Import Pipe.Pipeline Pipe.DestParent Pipe.DrySim Pipe.DryEqualsReal.
 Open Scope N_scope.
 
 (* ---------- a report applied to a tree --------------------------------------------------------- *)
@@ -210,6 +210,10 @@ Fixpoint first_pass_dirs (c : cfg) (plan : list (pfile * rendered)) (w : world) 
              | None => ds
              | Some false => ds
              | Some true =>
+               match dest_parent_test (c_var c) (w_fs w) f np with
+               | None => ds
+               | Some false => ds
+               | Some true =>
                match parents_contained (w_fs w) f np with
                | None => ds
                | Some false => ds
@@ -223,6 +227,7 @@ Fixpoint first_pass_dirs (c : cfg) (plan : list (pfile * rendered)) (w : world) 
                | (w1, Some e) =>
                  if is_file_exists e then first_pass_dirs c rest w1 cwd1 ((pf_dir f, pf_rel f, np) :: backlog) ds
                  else ds
+               end
                end
                end
                end
@@ -487,6 +492,8 @@ Proof.
       rewrite (contained_dd s0 f np _ W0 Pdd), (contained_dd (w_fs wr) f np _ (sim_wf _ _ _ _ _ _ S) Pdd').
       destruct (is_prefix_path (pf_dir f) (removelast (pf_dir f ++ removelast (pp_parts (pf_rel f))))).
       2:{ fp_exit T. }
+      rewrite (dest_parent_test_generated fixed _ s0 f _ np G eq_refl (source_contained_rel s0 f W0 Ps)),
+              (dest_parent_test_generated fixed _ (w_fs wr) f _ np G eq_refl (source_contained_rel (w_fs wr) f (sim_wf _ _ _ _ _ _ S) (plain_rel_transfer _ _ _ _ (sim_skel _ _ _ _ _ _ S) Ps))).
       rewrite (parents_contained_dd s0 f np _ W0 Pdd), (parents_contained_dd (w_fs wr) f np _ (sim_wf _ _ _ _ _ _ S) Pdd').
       rewrite (source_contained_rel s0 f W0 Ps),
               (source_contained_rel (w_fs wr) f (sim_wf _ _ _ _ _ _ S) (plain_rel_transfer _ _ _ _ (sim_skel _ _ _ _ _ _ S) Ps)).
@@ -507,6 +514,8 @@ Proof.
       rewrite (contained_rel (w_fs wr) f np (sim_wf _ _ _ _ _ _ S) Pd' NLr).
       destruct (is_prefix_path (pf_dir f) (pf_dir f ++ pp_parts np)).
       2:{ fp_exit T. }
+      rewrite (dest_parent_test_generated fixed _ s0 f _ np G eq_refl (source_contained_rel s0 f W0 Ps)),
+              (dest_parent_test_generated fixed _ (w_fs wr) f _ np G eq_refl (source_contained_rel (w_fs wr) f (sim_wf _ _ _ _ _ _ S) (plain_rel_transfer _ _ _ _ (sim_skel _ _ _ _ _ _ S) Ps))).
       rewrite (parents_contained_rel s0 f np W0 Pd), (parents_contained_rel (w_fs wr) f np (sim_wf _ _ _ _ _ _ S) Pd').
       rewrite (source_contained_rel s0 f W0 Ps),
               (source_contained_rel (w_fs wr) f (sim_wf _ _ _ _ _ _ S) (plain_rel_transfer _ _ _ _ (sim_skel _ _ _ _ _ _ S) Ps)).
